@@ -225,9 +225,13 @@ def run(rep):
                 op = dict(kind='method', name=rng.choice(['XSintphi', 'XGAMMA', 'ImH', 'XUU', 'XLU']))
             elif r < 0.9:
                 op = dict(kind='chisq', pts=rng.sample(pool, min(3, len(pool))), kw={'asym': rng.random() < 0.5})
-            else:
+            elif r < 0.95:
                 # missing kinematics: evaluate on a shared point that lacks t
                 op = dict(kind='predict', kw={'observable': rng.choice(['XGAMMA', 'ImH'])}, strip='t')
+            else:
+                # a t-integrated observable whose integrand cannot be evaluated (no xB / W on the point, or a
+                # process the theory has no formula for): the call fails inside the integration loop
+                op = dict(kind='predict', kw={'observable': 'XGAMMA'}, strip=rng.choice(['xBW', 'dvmp']))
             ops.append(op)
         # ---- run on the shared objects ----
         real = []
@@ -236,6 +240,11 @@ def run(rep):
                 tgt = pt.copy()
                 for k in ('t', 'tm'):
                     tgt.pop(k, None)
+                if op['strip'] == 'xBW':
+                    for k in ('xB', 'W', 'xi'):
+                        tgt.pop(k, None)
+                elif op['strip'] == 'dvmp':
+                    tgt['process'] = 'gammastarp2rho0p'
                 op['target'] = tgt
                 op['target0'] = tgt.copy()
             else:
